@@ -94,6 +94,69 @@ def c09(res, tier, seed, replay):
         if rc != 0:
             raise Inconclusive(f"driver {name} failed rc={rc}: {se[-1500:]}")
         results += drive_and_validate(res, [dict(r, name=name + "-v")])  # no crash this time: validate like the others
+    # ---- forced schedules: behaviours of ShardCache.tla (pinned switches on) stepped through a real shard
+    canon = [  # the two schedules behind the known findings, always included
+        {"hist": [["RBegin", "r1"], ["WBegin", ""], ["WAttach", ""], ["WCommit", ""], ["RAttachShared", "r1"], ["REnd", "r1"]]},
+        {"hist": [["RBegin", "r1"], ["RAttachNew", "r1"], ["RGetShared", "r1"], ["RBegin", "r2"], ["RAttachShared", "r2"], ["REnd", "r2"],
+                  ["RGetShared", "r1"], ["REnd", "r1"]]},
+        {"hist": [["WBegin", ""], ["WAttach", ""], ["RBegin", "r1"], ["WFail", ""], ["RAttachNew", "r1"], ["REnd", "r1"]]},
+    ]
+    nb = 240 if tier == "quick" else 3000
+    behs = vlib.tlc_simulate("ShardCacheSim", "ShardCache.sim.cfg", nb, 200, seed, timeout=1200)
+    # (the schedule of C09-a kills the process: it gets chunks of its own)
+    chunk = 60
+    behs = [canon[1]] * chunk + ([canon[0], canon[2]] * 8 + behs)
+    res.coverage["forced_schedule_behaviours"] = len(behs)
+    forced = 0
+    fresults = []
+    jobs = []
+    for ci in range(0, len(behs), chunk):
+        for cfgname in (("vamana-euclidean", "flat-euclidean") if tier == "thorough" or ci <= chunk else ("vamana-euclidean",)):
+            jobs.append((ci, cfgname))
+
+    def run_chunk(job):
+        ci, cfgname = job
+        name = f"sched-{cfgname}-{ci // chunk}"
+        bf = os.path.join(vlib.subdir("traces"), name + ".behaviours")
+        with open(bf, "w") as f:
+            f.write("\n".join(json.dumps(b) for b in behs[ci:ci + chunk]) + "\n")
+        out = os.path.join(vlib.subdir("traces"), name + ".ndjson")
+        args = ["-mode", "sched", "-config", cfgname, "-nids", 500, "-behaviours", bf, "-seed", seed * 100 + ci // chunk]
+        rc, so, se = vlib.run_vh(["shard"] + args + ["-out", out, "-dir", vlib.subdir("db-" + name)], timeout=1500)
+        return name, args, bf, out, rc, so, se
+    for name, args, bf, out, rc, so, se in vlib.pmap(run_chunk, jobs, workers=6):
+        if rc != 0 and CRASH_RE.search(se):
+            m = re.search(r"goroutine \d+[^\n]*\[running\]:\n(.*?)(\n\n|\Z)", se, re.S)
+            crashing = m.group(1) if m else se
+            if "C09-a" in kn and all(x in crashing for x in SIG_C09A):
+                res.known["C09-a"] = kn["C09-a"]["what"]
+                res.add("known_crash_runs", 1)
+                continue
+            errf = out + ".stderr"
+            open(errf, "w").write(se)
+            first = next((ln for ln in se.splitlines() if CRASH_RE.search(ln)), "")
+            res.violation(f"process crashed under a forced schedule ({name}), stack does not match a known finding: {first[:200]}",
+                          files=[bf, errf], meta={"cmd": "shard", "args": args})
+            continue
+        if rc != 0:
+            raise Inconclusive(f"driver {name} failed rc={rc}: {se[-1500:]}")
+        tv = vlib.tlc_trace("ShardTrace", out, known=kn.keys(), name=name)
+        res.add("traces_validated_against_impl", 1)
+        res.add("trace_events", tv["lines"])
+        for k in tv["kf"]:
+            if k in kn:
+                res.known[k] = kn[k]["what"]
+        if not tv["accepted"]:
+            n = tv["matched"] + 1
+            line = vlib.read_line(out, n) or ""
+            res.violation(f"forced schedules {name}: no spec action explains line {n}/{tv['lines']}: {summarize_event(line)}",
+                          files=[out, bf], meta={"cmd": "shard", "args": args, "line": n, "module": "ShardTrace"})
+            continue
+        fresults.append({"trace": out, "tv": tv, "run": {"name": name, "args": args}})
+        with open(out) as f:
+            forced += sum(1 for line in f if '"forced":1' in line)
+    res.coverage["searches_under_forced_schedules_judged_exactly"] = forced
+    results += fresults
     nsearch = 0
     overlapped = 0
     for r in results:
@@ -126,7 +189,11 @@ def c09(res, tier, seed, replay):
                             "batches finished before it began / started before it ended and TLC requires every returned point to be live "
                             "with exactly that document in one committed version of that interval; after the writers finish the warm and the "
                             "reopened instance are validated against the sequential model; crashes and search errors are violations")
-    res.assumptions += ["interleavings are sampled, not enumerated", "a search's snapshot lies between the last batch that returned before it began "
+    res.coverage["rule"] += ("; in addition behaviours of ShardCache.tla (TLC simulation, both pinned switches on, plus the schedules behind the "
+                             "two known findings) are forced on a real shard through the storage proxy (transaction begun / closure returned / "
+                             "transaction over / storage read inside a search) and the cache manager's yield points: every answer of those searches "
+                             "must be exactly the version that was committed when its storage transaction began")
+    res.assumptions += ["free-running interleavings are sampled; forced schedules are at the granularity of the gates named above", "a search's snapshot lies between the last batch that returned before it began "
                         "and the last batch that had started when it ended"]
 
 
